@@ -253,7 +253,7 @@ ADDENDUM = {
     'C15': " ADDED: END TO END: obj_section for any selector (any subset of directions pinned to first/last, clamped ends) then obj_eval = obj_eval of the object with the start/end parameters filled in; corners are the corresponding control points; section nets are slices; the documented order of edges()/faces()/corners() (transcribed from utils.sections, each entry tied to the restriction it evaluates to); Model/ConstPar.v transcribes Surface.const_par_curve (insertion to multiplicity order-1 through basis_continuity, choice of the control-point row) with the theorem obj_eval(curve, s) = obj_eval(surface, (x, s)) for non-periodic directions (x a knot value or tol-separated, multiplicity <= order-1 inside, clamped ends), tied by L1; extrude nets start with the profile.",
     'C12': " ADDED: END TO END for directions that are non-periodic in both operands, any pardim, any mix of dimension/rationality, with order elevation: after make_splines_compatible both objects evaluate to their old maps padded with zeros; after make_splines_identical (one direction or all) both have order max(p1,p2), domain [0,1] and THE SAME knot list (equal as lists; multiplicities are the maxima), and each evaluates at the rescaled parameter to the padded old map; the computation provably succeeds for equal orders (for unequal orders success of the order elevation is a hypothesis, as in C05). Periodic directions (lower_periodic inside) remain L1/L2.",
     'C10': " ADDED: Model/Ops2.v extends the operation language (raise_order, split-and-pick, section, rotate, mirror, make_periodic, lower_periodic, append, make_splines_identical on top of the nine old operations) and Proofs/Ops2Proofs.v proves over ALL histories a stronger invariant: shape, one basis per direction, order >= 1, enough knots, sorted knots, start < end; periodic ghost knots are exact images of the interior (carried through periodic insertion incl. both repair loops, make_periodic, lower_periodic); positive weights preserved by every operation except order raising/lowering; every intermediate object of a history satisfies it; flat first-index-fastest indexing is the documented re-indexing of the stored C order. State-dependent guards (e.g. periodic insertion needs a regular periodic basis, split needs separated split values) are stated per operation; lower_order is not covered.",
-    'C04': " ADDED: periodic directions are now PROVED for regular periodic bases (canonical knot list with exact images, at least order+continuity functions -- the threshold below which the recorded finding lives): periodic Boehm identity at spec level; basis_insert_knot succeeds, returns a canonical periodic basis whose period is the old one plus exactly the new knot, in the interior case and in both ghost-repair branches, and the model's dense periodic rows satisfy row(old) = row(new) x C; hence the object-level map is preserved. Not yet end to end through obj_eval (snapping) for periodic directions; parameters outside the periodic domain (fmod wrap of the knot) L1/L2.",
+    'C04': " ADDED: periodic directions are now PROVED for regular periodic bases (canonical knot list with exact images, at least order+continuity functions -- the threshold below which the recorded finding lives): periodic Boehm identity at spec level; basis_insert_knot succeeds, returns a canonical periodic basis whose period is the old one plus exactly the new knot, in the interior case and in both ghost-repair branches, and the model's dense periodic rows satisfy row(old) = row(new) x C; hence the object-level map is preserved. (End to end through obj_eval: see the wave-3 addition below.)",
     'C03': " ADDED: the regenerated rational kernels are the TRUE derivatives: for numerator/weight functions differentiable on an open interval the curve kernels for d = 1,2,3 are is_derive_n of the quotient (Coquelicot), the generic quotient rule is the partial derivative in any direction, all ten surface multi-indices are the iterated partials (both nestings); for rational spline curves and tensor-product surfaces on open knot spans the kernels applied to the dB sums are the derivatives of the rational map; tangent = normalised first derivative (unit, parallel), normal = normalised cross product (unit, orthogonal to both).",
     'C01': " ADDED: the dense and the sparse result forms agree (dense row = scatter-add of the stored (index, datum) pairs, duplicates summed, for every Num instance; "
            "on non-periodic bases the p indices are the consecutive columns mu-p..mu-1 and everything else is zero).",
@@ -264,18 +264,18 @@ ADDENDUM = {
            "hypothesis on that parameter, or tolerance scaled by the slope with no hypothesis; periodic directions included), the domain is exactly the requested interval, reparam back is the "
            "identity; obj_reverse then obj_eval at a+b-t = obj_eval at t on non-periodic directions for every t that is not within the tolerance of an interior knot of full multiplicity "
            "(ends and knots of lower multiplicity included), domain/order/periodicity unchanged, reverse is an involution (objects equal); obj_swap then obj_eval with the parameters exchanged = "
-           "obj_eval for any two directions of any pardim, swap is an involution, curves unchanged. Still L1/L2 only: reverse on periodic directions.",
+           "obj_eval for any two directions of any pardim, swap is an involution, curves unchanged. (Reverse on periodic directions: see the wave-3 addition below.)",
     'C07': " ADDED (end to end): for the model's obj_split in a non-periodic direction of any-pardim object, for every strictly increasing list of interior split values that keep 2*tol "
            "distance from each other and the ends: the call succeeds with exactly len+1 pieces, every piece is well formed, non-periodic, of the same order, its domain in that direction is the "
            "consecutive sub-interval [x_{j-1}, x_j] (tiling from start to end), the other directions are untouched, and obj_eval of piece j equals obj_eval of the original at every parameter tuple "
            "of its sub-interval (up to 2*tol below an interior piece end, where the piece evaluates the left and the original the right limit); values outside (start,end) are skipped. "
-           "Still L1/L2 only: the periodic branch (roll), subdivide, the unification inside append.",
+           "Still L1/L2 only: subdivide, the unification inside append (the periodic branch: see the wave-3 addition below).",
     'C08': " ADDED: seam continuity -- for knot functions with exact periodic images and periodic coefficients the wrapped sum and all its derivatives up to the periodic continuity agree from the "
            "right at start and from the left at end (also for finite knot lists; B-splines and their derivatives are continuous at knots of sufficiently low multiplicity, any multiplicity); "
            "translation by a period leaves the wrapped sums unchanged; BSplineBasis.make_periodic of an open basis gives a sorted knot list whose ghost knots are the exact periodic images with "
            "seam multiplicity p-1-continuity, the model's dense rows at start/end agree up to that derivative order; opening at the seam and make_periodic with the same continuity returns the "
            "same knot list (canonical periodic bases with at least p-1+... interior room: cont <= number of interior knots); roll + truncation of the periodic split branch opens exactly at the seam. "
-           "Still L1/L2 only: control-point round trip (known finding), lower_periodic, the repeated periodic insertion inside split."
+           "Still L1/L2 only: control-point round trip (known finding)."
            " one step of lower_periodic (insert the start knot, roll, drop the last knot) preserves the map and yields a canonical periodic basis of continuity one lower (so the step iterates); Paramcoq transfer of make_periodic/lower_periodic.",
     'C13': " ADDED: composite primitives from the proved building blocks -- sphere, torus (quartic and sqrt form) and solid torus from revolve nets; cylinder and solid cylinder from extrude nets "
            "(point = base + v*axis, radial distance r, height in [0,h]); radial disc and radial solid sphere (straight interpolation to the centre: distance u*r, stays in the plane); the 3x3 "
@@ -291,7 +291,7 @@ ADDENDUM = {
            "face has owner < neighbour which are the two adjacent cells, every adjacent pair has exactly one face; every cell is bounded by exactly six faces; the four nodes of a face are the "
            "four distinct corners shared by owner and neighbour (resp. on the boundary); no face is exported twice; with control points on the integer lattice the vertex order gives normal "
            "+e_d for internal and upper-boundary faces and -e_d at the lower boundary (owner to neighbour / outward). Tied by L1 (faces() and cell numbers of single and offset patches). "
-           "Interfaces between patches (neighbour cell numbers through the orientation) remain L2.",
+           "(Interfaces between two patches: see the wave-3 addition below.)",
     'C19': " ADDED: Model/Spl.v (SPL reader incl. the component-major, first-index-fastest coefficient layout; an independent writer) with the round-trip theorem decode(encode o) = o for every "
            "non-rational non-periodic object of any pardim, the index bijection, soundness, truncated files rejected; Model/Stl.v (choice of evaluation parameters, padding to 3 components, "
            "quads, split into two triangles, binary counter, whole write_surface path through obj_eval) with theorems: facet count = 2(nu-1)(nv-1) = declared count, every vertex is an evaluated "
@@ -299,6 +299,20 @@ ADDENDUM = {
            "starts/ends at the domain ends and contains every knot. Both tied by L1 (same token lines to model and SPL.read, files written by the model's writer read by the implementation; "
            "STL facets in file order against the model tessellation).",
 }
+
+# wave 3 (session 4): appended to the texts above
+ADDENDUM3 = {
+    'C02': " ADDED (wave 3): Model/DefaultObj.v -- the default object of any parametric dimension (Curve(), Surface(), Volume(), also rational) is the identity map of its unit cube (net, coordinates and on the whole domain), shape and well-formedness; every evaluated point lies in the reported bounding box = box of the projected control points; tied by L1 (runner default_obj, bounding_box).",
+    'C04': " ADDED (wave 3): periodic insertion END TO END through obj_eval (wrapped parameters, any periodic direction of any object, lists of knots): Proofs/PeriodicEndToEnd.v insert_knot(s)_periodic_eval, periodic_change_dir_eval.",
+    'C06': " ADDED (wave 3): obj_reverse in a periodic direction then obj_eval (Proofs/PeriodicReverse.v, canonical periodic bases).",
+    'C07': " ADDED (wave 3): the periodic branch -- roll opens a canonical periodic basis; split of a periodic direction at one value gives one open piece with the same map over a full period; at several increasing values: count, tiling, evaluation of every piece; a decreasing list is refused as the code does (Proofs/PeriodicSplit.v).",
+    'C08': " ADDED (wave 3): lower_periodic step and iteration END TO END through obj_eval (Proofs/PeriodicEndToEnd.v lower_periodic_step_eval, lower_periodic_eval).",
+    'C13': " ADDED (wave 3): circle_segment_from_three_points -- the linear system the code solves has the determinant of the three points, its solution is the unique circumcentre, the arc passes through first/middle/last point, is planar and on the circle; n-gon, line, polygon, square, cube factories with evaluation theorems (Proofs/ThreePoint.v); Gen/DiscSquare.v regenerated from surface_factory.disc and proved equal to the hand net (DiscSquareTie.v).",
+    'C14': " ADDED (wave 3): Model/Loft.v, Model/InterpMore.v -- loft (surface and volume) passes through every section at its parameter, also after set_dimension; cubic curve interpolation with natural/tangent/Hermite/tangent-natural/periodic end conditions passes through the data and meets the end condition (periodic: closed and C2); volume interpolation; surface/volume least squares satisfy the normal equations and are projections; Paramcoq transfer; tied by L1 (runner loft, volume_interpolate, surface_lsq, volume_lsq, cubic_periodic).",
+    'C18': " ADDED (wave 3): Model/Faces2.v -- two structured patches glued along one face in any of the 8 orientations: interface faces in closed form, owner/neighbour adjacent, each pair once, six faces per cell in both patches, the final owner<neighbour assertion holds iff the lower-numbered patch owns the interface, normals and nodes of interface faces, total count; tied by L1 (runner model_faces, orientation read from the implementation). Rings (a volume adjacent to itself) are L2 only; they exposed the defect repaired by fix e110469.",
+}
+for _k, _v in ADDENDUM3.items():
+    ADDENDUM[_k] = ADDENDUM.get(_k, '') + _v
 
 PENDING_REASON = "not claimed in this revision: model/theorems for this property are still being built (see DESIGN.md section 8 for the plan)"
 
